@@ -504,6 +504,28 @@ def run(prop, tier, seed):
             project(b, by_sc, lines, index)
             nsc += len(b.scenarios)
             nreq += sum(1 for e in events if e["ev"] == "Respond")
+        race = None
+        race_scs = []
+        if prop in ("C01", "C02"):
+            # "whether requests arrive singly or in batches ... over its whole lifetime": requests also arrive CONCURRENTLY.  The
+            # interleavings that designs without effective locking admit (SignerSim, broken LockMode) are imposed on the real
+            # code through the gates; the recorded releases join the same trace and the same invariants decide.
+            import concfamily
+            race_scs = concfamily.race_scenarios(prop, seed, wd, 24 if tier == "quick" else 240, concs[0][1])
+            rev, rdead, rstuck = concfamily.drive(race_scs, wd, tag="race")
+            if rstuck:
+                raise Inconclusive("race phase: watchdog fired without blocked-in-Lock evidence in %s" % rstuck[:3])
+            for sc_ in race_scs:
+                if sc_["id"] in rev and sc_["id"] not in {d_[0] for d_ in rdead}:
+                    start = len(lines) + 1
+                    project_one(sc_["id"], {}, [], rev[sc_["id"]], lines)
+                    index.append((start, len(lines), sc_["id"]))
+                    nreq += sum(1 for e in rev[sc_["id"]] if e["ev"] == "Respond")
+            nsc += len(race_scs)
+            race = dict(schedules=len(race_scs), deadlocked=[d_[0] for d_ in rdead],
+                        releases=sum(1 for sid_, evs_ in rev.items() for e in evs_ if e["ev"] == "Release"))
+            if rdead:
+                print("NOTE: %d race schedule(s) deadlocked (decided under C15); excluded here" % len(rdead))
         ok, violated, pos, r = validate(lines, p["trace_inv"], maxi, wd)
         info["states"] += r.distinct
         info["transitions"] += r.generated
@@ -518,6 +540,9 @@ def run(prop, tier, seed):
                 for s in b.scenarios:
                     if s["id"] == sid:
                         sc, smeta, sfloors = s, b.meta[sid], b.expect[sid]["floors"]
+            for s in race_scs:
+                if s["id"] == sid:
+                    sc, smeta, sfloors = s, {}, []
             seg = []
             for a, bb, s in index:
                 if s == sid:
@@ -537,7 +562,7 @@ def run(prop, tier, seed):
             if sp["drift"]:
                 print("DRIFT: util.Scatter extents differ from Scatter.tla in %d cell(s), e.g. %s" % (len(sp["drift"]), sp["drift"][0]))
         rc = verdict.finish()
-        cov = dict(states=info["states"], transitions=info["transitions"], traces_validated_against_impl=nsc, batch_equals_sequential=batch_cov,
+        cov = dict(states=info["states"], transitions=info["transitions"], traces_validated_against_impl=nsc, batch_equals_sequential=batch_cov, concurrent_arrival=race,
                    samples=[dict(kind="recorded-trace-prefix", lines=sample_trace),
                             dict(kind="attack-histories", items=attacks[:4])],
                    model_runs=info["model_runs"], mutants=info["mutants"], mutants_expected=len(p["mutants"]),
